@@ -20,12 +20,20 @@ what the harness' `!tokidx` mode and `numbered` do), because the tree records th
 Acceptance (`parse` returns `Ok` on every list of the fragment) is `C02_parse_accepts_fragment`; `C02_modelParse_binary`
 is the unconditional form.  Stage 2 (prefix operators in operand position, fragment `Spec.frag2`) is
 `C02_parse_correct_fragment_prefix`, stage 3 (suffix operators, fragment `Spec.frag3`) is
-`C02_parse_correct_fragment_suffix`; both unconditional as well.  Not done: brackets / side-effect blocks, lists.
+`C02_parse_correct_fragment_suffix`; both unconditional as well.  Stage 5 (groups `( .. )` and nested expressions
+`{ .. }` as operands, to any depth, fragment `Spec.frag5`) is `C02_parse_correct_fragment_groups`; side-effect blocks
+`[ body ]` and `v [ body ]` with a body of that fragment are `C02_parse_block_body` / `C02_parse_block_body_after_value`
+(the subtree under the SideEffect node is the reference tree of the body).  Stage 6a (implicit space lists `a b`,
+`f (x) y`, `a -- b`, fragment `Spec.frag6`) is `C02_parse_correct_fragment_lists`; stage 6b (`,` and infix identifiers
+between two operands, fragment `Spec.frag7`) is `C02_parse_correct_fragment_commas`.  Not done: commas with a missing
+operand (leading / trailing comma), separators (blank lines, `;`).
 -/
 import Garnish.Lemmas.ParserFrag5
 import Garnish.Lemmas.ParserAccept2
 import Garnish.Lemmas.ParserPrefix5
 import Garnish.Lemmas.ParserSuffix5
+import Garnish.Lemmas.ParserB14
+import Garnish.Lemmas.RefParseShift
 import Garnish.Lemmas.RefParseInorder
 import Garnish.Lemmas.RefParseUnique
 import Garnish.Props.C02
@@ -202,5 +210,258 @@ def ex4 : List PToken :=
 theorem ex4_in_fragment : frag3 ex4 = true := by decide
 theorem ex4_numbered : NumberedFrom 0 ex4 := by simp [ex4, NumberedFrom, tk]
 theorem ex4_accepted : (parse ex4).isOk = true := by decide
+
+/-! ### stage 5: groups and nested expressions
+
+Fragment `Spec.frag5` (decidable; syntax trees `Spec.Ex`):
+  operand ::= prefix* value | prefix* `(` trivia* expr trivia* `)` | prefix* `{` trivia* expr trivia* `}`
+  expr    ::= operand | expr trivia* binop trivia* operand | expr suffix
+to any nesting depth.  The reference parser returns a closed bracket as an opaque `group` node, so the implementation-side
+tree is read the same way (`treeToRG`: a node whose definition is Group / NestedExpression becomes `group d k content`).
+Proofs: Garnish/Lemmas/ParserB1 .. ParserB12 — one partial tree per open bracket (`NInv` / `UInv`: the frame of the
+innermost open bracket; the outer frames are only known to be untouched), the parent walk stopping at the open bracket
+(`walkLoop_chain_grp`, `is_our_group`), the walk starting at a closed bracket (`walk_insertC`), the opening bracket
+(`step_openB`: pushed like a prefix operator with a dangling `right`, becomes `next_parent` and the current group),
+the closing bracket (`step_closeU`: group stack popped, list flag restored, `last_left` := the bracket node), and the
+induction over the syntax (`ex_ok`). -/
+
+/-- implementation-side tree as a reference tree, closed brackets as `group` nodes -/
+def treeToRG (r : ParseResult) : Tree → RTree
+  | .nil => .nil
+  | .node l i k rt =>
+    if isBracketDef ((r.nodes[i]?).map (·.definition) |>.getD .drop) then
+      .group ((r.nodes[i]?).map (·.definition) |>.getD .drop) k (treeToRG r rt)
+    else .node (treeToRG r l) ((r.nodes[i]?).map (·.definition) |>.getD .drop) k (treeToRG r rt)
+
+theorem C02_toRG_eq_treeToRG (r : ParseResult) : ∀ t : Tree, toRG (dfOf r.nodes) t = treeToRG r t
+  | .nil => rfl
+  | .node l i k rt => by
+    simp only [toRG, treeToRG, C02_toRG_eq_treeToRG r l, C02_toRG_eq_treeToRG r rt]
+    rfl
+
+/-- without brackets `treeToRG` is `treeToR` -/
+theorem C02_treeToRG_eq_treeToR (r : ParseResult) (t : Tree)
+    (h : ∀ i ∈ t.inorder, isBracketDef (dfOf r.nodes i) = false) : treeToRG r t = Garnish.Props.C02.treeToR r t := by
+  rw [← C02_toRG_eq_treeToRG, ← C02_toRd_eq_treeToR, toRG_eq_toRd _ _ h]
+
+/-- **stage 5, unconditional**: for every token list of the fragment with groups and nested expressions whose tokens
+    carry their positions, the model of `parse` accepts, its node array is a proper tree, and that tree is the reference
+    tree -/
+theorem C02_parse_correct_fragment_groups (toks : List PToken) (hf : frag5 toks = true) (hnum : NumberedFrom 0 toks) :
+    ∃ r t, parse toks = .ok r ∧ toTree r = some t ∧ refParse Table.gen toks = .ok (treeToRG r t) := by
+  obtain ⟨r, t, h1, h2, h3⟩ := parse_frag5 toks hf hnum
+  exact ⟨r, t, h1, h2, by rw [← C02_toRG_eq_treeToRG]; exact h3⟩
+
+theorem C02_parse_fragment_groups_precOK_inorder (toks : List PToken) (hf : frag5 toks = true)
+    (hnum : NumberedFrom 0 toks) :
+    ∃ r t, parse toks = .ok r ∧ toTree r = some t ∧ ProperTree r ∧ PrecOK Table.gen Table.gen.rtl (treeToRG r t) ∧
+      (treeToRG r t).inorderSig = significant toks := by
+  obtain ⟨r, t, h0, h1, h2⟩ := C02_parse_correct_fragment_groups toks hf hnum
+  exact ⟨r, t, h0, h1, ⟨t, (toTree_some_iff r t).mp h1⟩, Garnish.Props.C02.C02_refParse_precOK_gen toks _ h2,
+    refParse_inorder toks _ h2⟩
+
+/-- `( a + 2 ) * --{ b**(c-1)~~ } == !!(d) . e`: five binary operators of five priorities, two prefix operators in front of
+    brackets, a suffix operator after a closed bracket, brackets nested three deep, trivia next to the brackets, and the
+    tie Not (400) / Equality (400) with a bracket as the operand of `!!` -/
+def ex5 : List PToken :=
+  [tk .startGroup "(" 0, tk .identifier "a" 1, tk .whitespace " " 2, tk .plusSign "+" 3, tk .whitespace " " 4,
+   tk .number "2" 5, tk .endGroup ")" 6, tk .whitespace " " 7, tk .multiplicationSign "*" 8, tk .whitespace " " 9,
+   tk .opposite "--" 10, tk .startExpression "{" 11, tk .whitespace " " 12, tk .identifier "b" 13,
+   tk .exponentialSign "**" 14, tk .startGroup "(" 15, tk .identifier "c" 16, tk .subtraction "-" 17, tk .number "1" 18,
+   tk .endGroup ")" 19, tk .emptyApply "~~" 20, tk .whitespace " " 21, tk .endExpression "}" 22, tk .whitespace " " 23,
+   tk .equality "==" 24, tk .whitespace " " 25, tk .not "!!" 26, tk .startGroup "(" 27, tk .identifier "d" 28,
+   tk .endGroup ")" 29, tk .period "." 30, tk .identifier "e" 31]
+
+theorem ex5_in_fragment : frag5 ex5 = true := by decide
+theorem ex5_numbered : NumberedFrom 0 ex5 := by simp [ex5, NumberedFrom, tk]
+theorem ex5_accepted : (parse ex5).isOk = true := by decide
+/-- the earlier fragments are part of this one -/
+theorem ex4_in_frag5 : frag5 ex4 = true ∧ frag5 ex3 = true ∧ frag5 ex2 = true ∧ frag5 ex1 = true := by decide
+
+/-- the tie with a bracket: `!! ( a ) == b` is `(!! (a)) == b`, and a suffix operator takes the closed bracket as its
+    operand: `( a ) ~~` -/
+def exTieG : List PToken :=
+  [tk .not "!!" 0, tk .startGroup "(" 1, tk .identifier "a" 2, tk .endGroup ")" 3, tk .equality "==" 4,
+   tk .identifier "b" 5]
+theorem exTieG_in_fragment : frag5 exTieG = true := by decide
+theorem exTieG_tree : refParse Table.gen exTieG =
+    .ok (.node (.node .nil .not 0 (.group .group 1 (.node .nil .identifier 2 .nil))) .equality 4
+      (.node .nil .identifier 5 .nil)) := by
+  rfl
+
+/-! ### side-effect blocks
+
+`[ body ]` and `v [ body ]` are outside of the reference grammar, but the body is an expression like any other: the subtree
+the parser builds under the SideEffect node is the reference tree of the body.  The reference parser is run on the body
+tokens alone, counting positions from where the body starts in the program (`refLoop Table.gen Frame.top [] k body`; for
+`k = 0` this is `refParse` of the body) — this is what the block-body check of tools/props/c02.py compares per input.
+`[` goes through `parse_token` with priority 5 (`step_sideOpen`); its `next_parent = Some(current_id)` is what makes the
+first token of the body the child of the SideEffect node (`openB_stepSE`: `next_parent = last_left`); `]` restores the list
+flag saved on the group stack (`side_body`: `check_for_list` after the block = before the block). -/
+
+/-- **`[ body ]`** with a body of the fragment (`fragL L C`: frag5 = `fragL false false`, frag6 = `fragL true false`,
+    frag7 = `fragL true true`): accepted, the root is the SideEffect node (token 0) without left child,
+    and the subtree under it is the reference tree of the body -/
+theorem C02_parse_block_body (o c : PToken) (wsA wsB body : List PToken) (ho : o.type = .startSideEffect)
+    (hc : c.type = .endSideEffect) {L C : Bool} (hbody : fragL L C body = true) (hwA : ∀ w ∈ wsA, isTriviaTok w = true)
+    (hwB : ∀ w ∈ wsB, isTriviaTok w = true) (hnum : NumberedFrom 0 (o :: (wsA ++ (body ++ (wsB ++ [c]))))) :
+    ∃ r t, parse (o :: (wsA ++ (body ++ (wsB ++ [c])))) = .ok r ∧ toTree r = some (.node .nil 0 o.col t) ∧
+      dfOf r.nodes 0 = .sideEffect ∧
+      refLoop Table.gen Frame.top [] (1 + wsA.length) body = .ok (treeToRG r t) := by
+  obtain ⟨e, hok, rfl⟩ := fragL_sound hbody
+  obtain ⟨r, t, h1, h2, h3, h4⟩ := parse_block o c wsA wsB e ho hc hok hwA hwB hnum
+  exact ⟨r, t, h1, h2, h3, by rw [← C02_toRG_eq_treeToRG]; exact h4⟩
+
+/-- **`v [ body ]`** (a value, optional trivia, a block): accepted, the root is the value node (token 0), its right child is
+    the SideEffect node (node 1) without left child, and the subtree under that is the reference tree of the body -/
+theorem C02_parse_block_body_after_value (v o c : PToken) (ws wsA wsB body : List PToken) (hv : isAtom10 v = true)
+    (ho : o.type = .startSideEffect) (hc : c.type = .endSideEffect) {L C : Bool} (hbody : fragL L C body = true)
+    (hws : ∀ w ∈ ws, isTriviaTok w = true) (hwA : ∀ w ∈ wsA, isTriviaTok w = true)
+    (hwB : ∀ w ∈ wsB, isTriviaTok w = true)
+    (hnum : NumberedFrom 0 (v :: (ws ++ (o :: (wsA ++ (body ++ (wsB ++ [c]))))))) :
+    ∃ r t, parse (v :: (ws ++ (o :: (wsA ++ (body ++ (wsB ++ [c])))))) = .ok r ∧
+      toTree r = some (.node .nil 0 v.col (.node .nil 1 o.col t)) ∧ dfOf r.nodes 1 = .sideEffect ∧
+      refLoop Table.gen Frame.top [] (1 + ws.length + 1 + wsA.length) body = .ok (treeToRG r t) := by
+  obtain ⟨e, hok, rfl⟩ := fragL_sound hbody
+  obtain ⟨r, t, h1, h2, h3, h4⟩ := parse_value_block v o c ws wsA wsB e hv ho hc hok hws hwA hwB hnum
+  exact ⟨r, t, h1, h2, h3, by rw [← C02_toRG_eq_treeToRG]; exact h4⟩
+
+/-- the same against `refParse` of the body: the subtree under the SideEffect node is the reference tree of the body with
+    all positions shifted by the offset of the body in the program (the `shift` of the block-body check) -/
+theorem C02_parse_block_body_refParse (o c : PToken) (wsA wsB body : List PToken) (ho : o.type = .startSideEffect)
+    (hc : c.type = .endSideEffect) {L C : Bool} (hbody : fragL L C body = true) (hwA : ∀ w ∈ wsA, isTriviaTok w = true)
+    (hwB : ∀ w ∈ wsB, isTriviaTok w = true) (hnum : NumberedFrom 0 (o :: (wsA ++ (body ++ (wsB ++ [c]))))) :
+    ∃ r t rt, parse (o :: (wsA ++ (body ++ (wsB ++ [c])))) = .ok r ∧ toTree r = some (.node .nil 0 o.col t) ∧
+      dfOf r.nodes 0 = .sideEffect ∧ refParse Table.gen body = .ok rt ∧ treeToRG r t = rt.shift (1 + wsA.length) := by
+  obtain ⟨r, t, h1, h2, h3, h4⟩ := C02_parse_block_body o c wsA wsB body ho hc hbody hwA hwB hnum
+  obtain ⟨e, hok, rfl⟩ := fragL_sound hbody
+  rw [refLoop_top_shift, ← refParse_ex e hok] at h4
+  cases hr : refParse Table.gen e.toks with
+  | ok rt =>
+    rw [hr] at h4
+    simp only [Outcome.mapT, Outcome.ok.injEq] at h4
+    exact ⟨r, t, rt, h1, h2, h3, rfl, h4.symm⟩
+  | err _ => rw [hr] at h4; cases h4
+  | panic _ => rw [hr] at h4; cases h4
+  | fuelOut => rw [hr] at h4; cases h4
+
+theorem C02_parse_block_body_after_value_refParse (v o c : PToken) (ws wsA wsB body : List PToken)
+    (hv : isAtom10 v = true) (ho : o.type = .startSideEffect) (hc : c.type = .endSideEffect) {L C : Bool}
+    (hbody : fragL L C body = true) (hws : ∀ w ∈ ws, isTriviaTok w = true) (hwA : ∀ w ∈ wsA, isTriviaTok w = true)
+    (hwB : ∀ w ∈ wsB, isTriviaTok w = true)
+    (hnum : NumberedFrom 0 (v :: (ws ++ (o :: (wsA ++ (body ++ (wsB ++ [c]))))))) :
+    ∃ r t rt, parse (v :: (ws ++ (o :: (wsA ++ (body ++ (wsB ++ [c])))))) = .ok r ∧
+      toTree r = some (.node .nil 0 v.col (.node .nil 1 o.col t)) ∧ dfOf r.nodes 1 = .sideEffect ∧
+      refParse Table.gen body = .ok rt ∧ treeToRG r t = rt.shift (1 + ws.length + 1 + wsA.length) := by
+  obtain ⟨r, t, h1, h2, h3, h4⟩ := C02_parse_block_body_after_value v o c ws wsA wsB body hv ho hc hbody hws hwA hwB hnum
+  obtain ⟨e, hok, rfl⟩ := fragL_sound hbody
+  rw [refLoop_top_shift, ← refParse_ex e hok] at h4
+  cases hr : refParse Table.gen e.toks with
+  | ok rt =>
+    rw [hr] at h4
+    simp only [Outcome.mapT, Outcome.ok.injEq] at h4
+    exact ⟨r, t, rt, h1, h2, h3, rfl, h4.symm⟩
+  | err _ => rw [hr] at h4; cases h4
+  | panic _ => rw [hr] at h4; cases h4
+  | fuelOut => rw [hr] at h4; cases h4
+
+/-- `[ a + (b) * 2 ]` and `7 [ a + (b) * 2 ]` (the two shapes the block-body check wraps every expression in) -/
+def exBody : List PToken :=
+  [tk .identifier "a" 1, tk .whitespace " " 2, tk .plusSign "+" 3, tk .whitespace " " 4, tk .startGroup "(" 5,
+   tk .identifier "b" 6, tk .endGroup ")" 7, tk .multiplicationSign "*" 8, tk .number "2" 9]
+def exBlock : List PToken := tk .startSideEffect "[" 0 :: ([] ++ (exBody ++ ([] ++ [tk .endSideEffect "]" 10])))
+theorem exBody_in_fragment : frag5 exBody = true := by decide
+theorem exBlock_numbered : NumberedFrom 0 exBlock := by simp [exBlock, exBody, NumberedFrom, tk]
+theorem exBlock_accepted : (parse exBlock).isOk = true := by decide
+theorem exBlock_body_tree : refLoop Table.gen Frame.top [] 1 exBody =
+    .ok (.node (.node .nil .identifier 1 .nil) .addition 3
+      (.node (.group .group 5 (.node .nil .identifier 6 .nil)) .multiplicationSign 8 (.node .nil .number 9 .nil))) := by
+  rfl
+
+/-! ### stage 6a: implicit space lists
+
+Fragment `Spec.frag6` (decidable) = frag5 plus
+  expr ::= expr trivia+ operand        (the trivia contains at least one Whitespace token; expr ends with an operand)
+at every nesting depth.  Whitespace after a value or a closed bracket sets `check_for_list` (`step_triviaU_ready`); the first
+token of the next operand — value, prefix operator or opening bracket, the three places where parser.rs repeats its
+"List flag is set, creating list node before current node" block — inserts a `List` node (priority 220, token = the token
+just before) through `parse_token` exactly like a binary operator and is then processed as if that operator had just been
+read (`step_list_value`, `step_list_prefix`, `step_list_open`: the list-mode step = the ordinary step from `listState`).
+The reference parser does the same in `beforeOperand` (`ref_list_head`).  Proofs: Lemmas/ParserB15 .. ParserB18. -/
+
+/-- **stage 6a, unconditional**: groups, nested expressions and implicit space lists -/
+theorem C02_parse_correct_fragment_lists (toks : List PToken) (hf : frag6 toks = true) (hnum : NumberedFrom 0 toks) :
+    ∃ r t, parse toks = .ok r ∧ toTree r = some t ∧ refParse Table.gen toks = .ok (treeToRG r t) := by
+  obtain ⟨r, t, h1, h2, h3⟩ := parse_frag6 toks hf hnum
+  exact ⟨r, t, h1, h2, by rw [← C02_toRG_eq_treeToRG]; exact h3⟩
+
+theorem C02_parse_fragment_lists_precOK_inorder (toks : List PToken) (hf : frag6 toks = true)
+    (hnum : NumberedFrom 0 toks) :
+    ∃ r t, parse toks = .ok r ∧ toTree r = some t ∧ ProperTree r ∧ PrecOK Table.gen Table.gen.rtl (treeToRG r t) ∧
+      (treeToRG r t).inorderSig = significant toks := by
+  obtain ⟨r, t, h0, h1, h2⟩ := C02_parse_correct_fragment_lists toks hf hnum
+  exact ⟨r, t, h0, h1, ⟨t, (toTree_some_iff r t).mp h1⟩, Garnish.Props.C02.C02_refParse_precOK_gen toks _ h2,
+    refParse_inorder toks _ h2⟩
+
+/-- `f (x + 1) --y z = a b * 2`: list items that start with an opening bracket, a prefix operator and a value; the list
+    (priority 220) binds looser than `*` (90) and tighter than nothing here but `=` (210, right-to-left): the tie-free
+    mix List 220 / Pair 210 / MultiplicationSign 90 / Addition 100 -/
+def ex6 : List PToken :=
+  [tk .identifier "f" 0, tk .whitespace " " 1, tk .startGroup "(" 2, tk .identifier "x" 3, tk .whitespace " " 4,
+   tk .plusSign "+" 5, tk .whitespace " " 6, tk .number "1" 7, tk .endGroup ")" 8, tk .whitespace " " 9,
+   tk .opposite "--" 10, tk .identifier "y" 11, tk .annotation "@n" 12, tk .whitespace " " 13, tk .identifier "z" 14,
+   tk .whitespace " " 15, tk .pair "=" 16, tk .whitespace " " 17, tk .identifier "a" 18, tk .whitespace " " 19,
+   tk .identifier "b" 20, tk .whitespace " " 21, tk .multiplicationSign "*" 22, tk .whitespace " " 23, tk .number "2" 24]
+
+theorem ex6_in_fragment : frag6 ex6 = true ∧ frag5 ex6 = false := by decide
+theorem ex6_numbered : NumberedFrom 0 ex6 := by simp [ex6, NumberedFrom, tk]
+theorem ex6_accepted : (parse ex6).isOk = true := by decide
+theorem ex5_in_frag6 : frag6 ex5 = true := by decide
+
+/-- `a b * 2`: the list is looser than `*`: `a (b * 2)`; the List node carries the position of the whitespace token -/
+def exList : List PToken :=
+  [tk .identifier "a" 0, tk .whitespace " " 1, tk .identifier "b" 2, tk .multiplicationSign "*" 3, tk .number "2" 4]
+theorem exList_in_fragment : frag6 exList = true := by decide
+theorem exList_tree : refParse Table.gen exList =
+    .ok (.node (.node .nil .identifier 0 .nil) .list 1
+      (.node (.node .nil .identifier 2 .nil) .multiplicationSign 3 (.node .nil .number 4 .nil))) := by
+  rfl
+
+/-! ### stage 6b: `,` and infix identifiers between two operands
+
+Fragment `Spec.frag7` (decidable) = frag6 plus the tokens of class OptionalBinaryLeftToRight (`,` → CommaList, priority 900;
+infix identifiers → InfixApply, priority 152) in binary-operator position with BOTH operands present.  The parser handles
+them in the same arm as left-to-right binary operators; the reference parser remembers `optOp` instead of `op`
+(`lastAfter`), which makes no difference when an operand follows.  A missing operand (leading / trailing comma, the
+`is_optional` reset in the EndGrouping arm) is outside this fragment. -/
+
+/-- **stage 6b, unconditional** -/
+theorem C02_parse_correct_fragment_commas (toks : List PToken) (hf : frag7 toks = true) (hnum : NumberedFrom 0 toks) :
+    ∃ r t, parse toks = .ok r ∧ toTree r = some t ∧ refParse Table.gen toks = .ok (treeToRG r t) := by
+  obtain ⟨r, t, h1, h2, h3⟩ := parse_frag7 toks hf hnum
+  exact ⟨r, t, h1, h2, by rw [← C02_toRG_eq_treeToRG]; exact h3⟩
+
+theorem C02_parse_fragment_commas_precOK_inorder (toks : List PToken) (hf : frag7 toks = true)
+    (hnum : NumberedFrom 0 toks) :
+    ∃ r t, parse toks = .ok r ∧ toTree r = some t ∧ ProperTree r ∧ PrecOK Table.gen Table.gen.rtl (treeToRG r t) ∧
+      (treeToRG r t).inorderSig = significant toks := by
+  obtain ⟨r, t, h0, h1, h2⟩ := C02_parse_correct_fragment_commas toks hf hnum
+  exact ⟨r, t, h0, h1, ⟨t, (toTree_some_iff r t).mp h1⟩, Garnish.Props.C02.C02_refParse_precOK_gen toks _ h2,
+    refParse_inorder toks _ h2⟩
+
+/-- `(a b, c + 1, --d) `f` {x, y} == z`: commas (900) inside brackets with a space list (220), `+` (100) and a prefix
+    operator as items, an infix identifier (152) between two brackets, and `==` (400) -/
+def ex7 : List PToken :=
+  [tk .startGroup "(" 0, tk .identifier "a" 1, tk .whitespace " " 2, tk .identifier "b" 3, tk .comma "," 4,
+   tk .whitespace " " 5, tk .identifier "c" 6, tk .whitespace " " 7, tk .plusSign "+" 8, tk .whitespace " " 9,
+   tk .number "1" 10, tk .comma "," 11, tk .whitespace " " 12, tk .opposite "--" 13, tk .identifier "d" 14,
+   tk .endGroup ")" 15, tk .whitespace " " 16, tk .infixIdentifier "`f`" 17, tk .whitespace " " 18,
+   tk .startExpression "{" 19, tk .identifier "x" 20, tk .comma "," 21, tk .whitespace " " 22, tk .identifier "y" 23,
+   tk .endExpression "}" 24, tk .whitespace " " 25, tk .equality "==" 26, tk .whitespace " " 27, tk .identifier "z" 28]
+
+theorem ex7_in_fragment : frag7 ex7 = true ∧ frag6 ex7 = false := by decide
+theorem ex7_numbered : NumberedFrom 0 ex7 := by simp [ex7, NumberedFrom, tk]
+theorem ex7_accepted : (parse ex7).isOk = true := by decide
+theorem ex6_in_frag7 : frag7 ex6 = true ∧ frag7 ex5 = true := by decide
 
 end Garnish.Props.C02Parse
